@@ -339,7 +339,7 @@ PROPS = {
              "stop-the-world-verified quiescence. (A) 2 goroutines x 1 operation: EVERY pair of operations, EVERY complete schedule "
              "(depth-first over the release choices with replay from the start; the number of schedules found on the real code is "
              "compared with the model's own exhaustive count); (B) 2 x 2 operations: every schedule of three fixed and a seeded "
-             "selection of program pairs (13 resp. 11 in quick, 153 each in thorough), counts compared likewise; (C) seeded random walks over "
+             "selection of program pairs (13 resp. 11 in quick, 73 each in thorough), counts compared likewise; (C) seeded random walks over "
              "2-3 goroutines x 1-3 operations in which goroutines are also sent into a held mutex (at most one waiter); (D) the "
              "double-Close scenarios. Compared per schedule: where every goroutine is after every release (point name / blk / end / "
              "pan), every return value, channel identities (nil / sentinel / c0, c1 by first appearance), which channels are closed "
